@@ -358,7 +358,7 @@ def oracle(ctx, cr):
     if "error" in cr.rec:
         err = cr.rec["error"]
         if not err.startswith("EXC"):
-            ctx.violation("%s:harness_error" % op, err[:300], det)
+            ctx.violation("%s:malformed_record" % op, err[:300], det)
         else:
             ctx.violation("%s:%s:fault" % (op, ac), "%s lhs %s rhs %s %s threw while the result was read: %s" % (op, m["sa"], m.get("sb"), {k: m[k] for k in ("n", "la", "ra", "offset", "axis1", "axis2", "keepdims") if k in m}, err[-160:]), det)
         return
